@@ -13,7 +13,7 @@ func c07Scenarios(tier string) []*Scenario {
 	L := c07L
 	bound := 2
 	if tier == "thorough" {
-		bound = 3
+		bound = 4
 	}
 	var out []*Scenario
 	add := func(name string, stack []Spec, script []Out) {
@@ -36,6 +36,9 @@ func c07Scenarios(tier string) []*Scenario {
 	}
 	T := Spec{Kind: KTimeout, Limit: L}
 	durs := []time.Duration{0, L - 1, L, L + 1, 3 * L}
+	if tier == "thorough" {
+		durs = []time.Duration{0, 1, L / 2, L - 1, L, L + 1, 2 * L, 3 * L}
+	}
 	// bare
 	for _, d := range durs {
 		add("bare", []Spec{T}, []Out{{V: 1, Dur: d}})
